@@ -120,6 +120,49 @@ def total2(ctx) -> List[Ob]:
     return out
 
 
+def _raise_key(n: ast.Raise) -> str:
+    """a raise is keyed by the exception class, not by its message (messages get reworded)"""
+    if n.exc is None:
+        return "raise"
+    e = n.exc.func if isinstance(n.exc, ast.Call) else n.exc
+    d = A.dotted(e)
+    if d and d.split(".")[-1][:1].isupper():
+        return "raise " + d.split(".")[-1] + ("(...)" if isinstance(n.exc, ast.Call) else "")
+    return "raise " + A.alpha_key(n.exc)
+
+
+def _dead_else_arm(n: ast.AST) -> bool:
+    """n sits in an arm of an if/elif chain that cannot run: an arm whose test repeats the test of an earlier
+    arm, or the final `else` of a chain two of whose tests are exact complements (`x in s` ... `x not in s`)"""
+    child = n
+    for anc in A.ancestors(n):
+        if isinstance(anc, ast.If) and (child in anc.body or (child in anc.orelse and not (len(anc.orelse) == 1 and isinstance(anc.orelse[0], ast.If)))):
+            in_body = child in anc.body
+            earlier = []
+            cur = anc
+            while True:
+                par = A.parent(cur)
+                if isinstance(par, ast.If) and len(par.orelse) == 1 and par.orelse[0] is cur:
+                    earlier.append(par.test)
+                    cur = par
+                else:
+                    break
+            if in_body:
+                mine = A.cond_key(A.unparse(anc.test), True)
+                if mine in {A.cond_key(A.unparse(t), True) for t in earlier}:
+                    return True
+            else:
+                tests = [anc.test] + earlier
+                keys_pos = {A.cond_key(A.unparse(t), True) for t in tests}
+                keys_neg = {A.cond_key(A.unparse(t), False) for t in tests}
+                if keys_pos & keys_neg:
+                    return True
+        if isinstance(anc, (ast.FunctionDef, ast.AsyncFunctionDef)):
+            break
+        child = anc
+    return False
+
+
 def _is_narrowing(test: ast.AST) -> bool:
     """assert x is not None / assert isinstance(x, C): type narrowing, not a shape condition"""
     if isinstance(test, ast.BoolOp):
@@ -153,8 +196,11 @@ def total3(ctx) -> List[Ob]:
                     out.append(bad("TOTAL-3", fn.qualname, key, where, f"shape-dependent assertion '{A.unparse(n.test)[:60]}' reachable from restructure(): a closed CFG that violates it is rejected with AssertionError",
                                    ["call path: " + " -> ".join(f.qualname for f in (cg.path(roots[0], fn) or []))]))
             elif isinstance(n, ast.Raise):
-                key = "raise " + (A.alpha_key(n.exc) if n.exc is not None else "")
+                key = _raise_key(n)
                 where = ctx.where(fn, n)
+                if _dead_else_arm(n):
+                    out.append(ok("TOTAL-3", fn.qualname, key, where, "final else of a chain whose tests are exhaustive (a test and its negation): the arm cannot run"))
+                    continue
                 out.append(bad("TOTAL-3", fn.qualname, key, where, f"'{A.unparse(n)[:60]}' reachable from restructure()",
                                ["call path: " + " -> ".join(f.qualname for f in (cg.path(roots[0], fn) or []))]))
             elif isinstance(n, ast.Call) and isinstance(n.func, ast.Name) and n.func.id == "next" and len(n.args) == 1 and isinstance(n.args[0], ast.Call) and isinstance(n.args[0].func, ast.Name) and n.args[0].func.id == "iter":
@@ -592,7 +638,7 @@ def total8(ctx) -> List[Ob]:
                 else:
                     out.append(bad("TOTAL-8", fn.qualname, key, where, f"assertion '{A.unparse(n.test)[:60]}' can reject a graph while it is written or read"))
             elif isinstance(n, ast.Raise):
-                key = "raise " + (A.alpha_key(n.exc) if n.exc is not None else "")
+                key = _raise_key(n)
                 out.append(bad("TOTAL-8", fn.qualname, key, ctx.where(fn, n), f"'{A.unparse(n)[:60]}' reachable while a graph is written or read"))
     return out
 
@@ -620,7 +666,7 @@ def total9(ctx) -> List[Ob]:
                     out.append(bad("TOTAL-9", fn.qualname, key, ctx.where(fn, n), f"assertion '{A.unparse(n.test)[:60]}' can make rendering fail"))
             elif isinstance(n, ast.Raise):
                 g = _guard_key(fn, n)
-                key = "raise " + (A.alpha_key(n.exc) if n.exc is not None else "") + (" under " + g if g else "")
+                key = _raise_key(n) + (" under " + g if g else "")
                 out.append(bad("TOTAL-9", fn.qualname, key, ctx.where(fn, n), f"'{A.unparse(n)[:50]}' can be reached while rendering (under: {g or 'no condition'})"))
     return out
 
